@@ -611,8 +611,29 @@ def _coords(poly):
     return " ".join(core.rs(float(v)) for p in poly for v in p)
 
 
-def line_gen(case):
-    c, s = case["rot"]
+def vertical_row_ratio():
+    """K of the vertical-row test of gen_borehole_config as the translator read it (0: `row_space[1] == 0`)."""
+    try:
+        txt = (core.LEAN / "GHEVerif" / "Gen" / "RowWise.lean").read_text()
+        m = __import__("re").search(r"def verticalRowRatio : Rat := \(+\(?(-?\d+) : Rat\)(?: / (\d+)\))?", txt)
+        return F(int(m.group(1)), int(m.group(2) or 1))
+    except Exception:
+        return F(0)
+
+
+def model_rot(case, ratio):
+    """The exact (cos, sin) the model is run with, or None.  rotate = -pi/2 in floating point (cos = 6e-17) is the model's (0, -1)
+    only when the code treats a negligible cosine as a vertical row (ratio > 0)."""
+    r = case.get("rot")
+    if isinstance(r, list):
+        return None if (tuple(r) == ("0", "-1") and ratio == 0) else r
+    if ratio > 0 and r == -math.pi / 2:
+        return ["0", "-1"]
+    return None
+
+
+def line_gen(case, rot=None):
+    c, s = rot or case["rot"]
     return f"rw_gen {core.rs(case.get('tol', TOL))} {core.rs(case['space'])} {core.rs(case['space'])} {c} {s} {_coords(case['poly'])}"
 
 
@@ -821,6 +842,13 @@ def boundary_cases(add):
     def order():
         n[0] += 1
         return RECT_ORDERS[n[0] % 8]
+    # rotations a hair away from +-90 deg (rows almost, but not exactly, vertical) on lots with vertical edges: must return,
+    # inside, spaced (a tolerance-based "vertical" test in vector_intersect makes distribute() walk off its end point for ever)
+    for poly in ([[7.5, 0.0], [38.5, 0.0], [38.5, 108.0], [7.5, 108.0]], [[0.0, 0.0], [60.0, 0.0], [60.0, 30.0], [0.0, 30.0]],
+                 [[40.0, 50.0], [90.0, 40.0], [40.0, 80.0]]):
+        for rot in (math.pi / 2 - 5e-6, -math.pi / 2 + 3e-6, math.pi / 2 - 1e-9, -math.pi / 2 + 1e-9, math.pi / 2 - 1e-13, -math.pi / 2 + 2e-13,
+                    math.pi / 2 - 2e-5, -math.pi / 2, math.pi / 2):
+            add({"kind": "gen", "stream": "boundary", "shape": "near-vertical-rows", "poly": poly, "space": 16.541 if poly[0][0] == 7.5 else 7.0, "rot": rot})
     offsets = [(0.0, 0.0), (0.0, 12.0), (7.5, 0.0), (3.25, 4.5), (10.0, 10.0)]
     for s in (7.5, 10.0, 12.5):
         for k in (1, 2, 3):
@@ -895,6 +923,12 @@ def run(ctx: core.Ctx):
         "expiry is only counted (guard-expired-large-case)" % (GUARD_MIN, GUARD_FACTOR, GUARD_CAP),
     ]
     ctx.lean_prepare()
+    vratio = vertical_row_ratio()
+    ctx.extra["vertical_row_ratio_of_the_source"] = str(vratio)
+    if vratio > 0:
+        ctx.assumptions[:] = [a for a in ctx.assumptions if not a.startswith("rotate = -90 deg is excluded")]
+        ctx.assumptions.append("rotate = -pi/2 (cos = 6e-17 in floating point) is compared with the model's exact vertical row (0, -1): the source treats "
+                               "|cos| <= %s |sin| as a vertical row" % float(vratio))
 
     scale = 1 if quick else 16
     cases = []
@@ -1121,10 +1155,11 @@ def run(ctx: core.Ctx):
 
     model_lines, model_idx = [], []
     for c in cases:
-        if c["kind"] in ("gen", "translate") and isinstance(c["rot"], list) and not c.get("nogo") and c.get("perim") is None \
-                and tuple(c["rot"]) != ("0", "-1"):
+        if c["kind"] in ("gen", "translate") and model_rot(c, vratio) is not None and not c.get("nogo") and c.get("perim") is None:
             model_idx.append((c["id"], "gen"))
-            model_lines.append(line_gen(c))
+            model_lines.append(line_gen(c, model_rot(c, vratio)))
+            if not isinstance(c["rot"], list):
+                ctx.count("model:rotate=-pi/2 compared with the exact vertical row (0,-1)")
         elif c["kind"] == "opt" and c.get("rots"):
             model_idx.append((c["id"], "opt"))
             model_lines.append(f"rw_opt {core.rs(TOL)} {core.rs(c['space'])} {len(c['rots'])} " + " ".join(f"{a} {b}" for a, b in c["rots"]) + " " + _coords(c["poly"]))
